@@ -21,11 +21,17 @@ fn body(ctx: &Ctx) -> (Summary, Meta) {
         exact: false,
         exact_max_n: 0,
     };
-    let sum = run_jobs(ctx, "spline-structure", &jobs, |j| j.key(), |j| {
-        let mut out = JobOut::default();
-        run_spline_job(j, want, &mut out);
-        out
-    });
+    let sum = run_jobs(
+        ctx,
+        "spline-structure",
+        &jobs,
+        |j| j.key(),
+        |j| {
+            let mut out = JobOut::default();
+            run_spline_job(j, want, &mut out);
+            out
+        },
+    );
     let meta = Meta {
         rule: "every (axis word, boundary configuration) is one built spline (state); per lane the Hermite pair of every interval is recovered from the implementation's samples at t=1/4,3/4 and (i) S(x_i)=y_i, (ii) the 5 other eighth-samples lie on that cubic, (iii) S' and (iv) S'' agree from both sides at every interior knot. Deliberately independent of which boundary rows are right. Non-trivial = lane with non-constant data.".into(),
         bounds: format!("{} axes (same alphabet as C03), 33 boundary configurations, 8 samples per interval, f64 and f32", axes.len()),
